@@ -242,9 +242,9 @@ bool ls_solution(const std::vector<cd>& x, const std::vector<cd>& d, const std::
 // ------------------------------------------------------------------------------------------- cases
 enum Alg { A_LMS = 0, A_NLMS = 1, A_RLS = 2 };
 const char* alg_name(int a) { return a == A_LMS ? "lms" : a == A_NLMS ? "nlms" : "rls"; }
-enum XCls { X_GAUSS = 0, X_UNIFORM, X_BINARY, X_AR1, X_LEADZERO, X_CONST, X_TONE, X_SPARSE, X_NCLS };
+enum XCls { X_GAUSS = 0, X_UNIFORM, X_BINARY, X_AR1, X_LEADZERO, X_CONST, X_TONE, X_SPARSE, X_TERNARY, X_GAPS, X_NCLS };
 const char* xcls_name(int c) {
-    static const char* n[] = {"white-gauss", "white-uniform", "white-binary/qpsk", "ar1", "leading-zeros", "const", "tone", "sparse"};
+    static const char* n[] = {"white-gauss", "white-uniform", "white-binary/qpsk", "ar1", "leading-zeros", "const", "tone", "sparse", "white-ternary (exact zeros)", "white with silent gaps"};
     return (c >= 0 && c < X_NCLS) ? n[c] : "?";
 }
 enum DMode { D_SYSTEM = 0, D_SYSTEM_NOISE, D_INDEPENDENT };
@@ -313,6 +313,22 @@ Plan make_plan(const Json& c, int H) {
     case X_SPARSE:
         for (auto& v : p.x) v = rx.range(0, 7) == 0 ? white(rx) * 2.8 : cd(0, 0);
         break;
+    case X_TERNARY: {   // white, unit power, one third of the samples (per component) exactly zero
+        const double a = std::sqrt(1.5);
+        auto t = [&]() { int k = rx.range(0, 2); return k == 0 ? 0.0 : k == 1 ? a : -a; };
+        for (auto& v : p.x) v = p.cx ? cd(t(), t()) * std::sqrt(0.5) : cd(t(), 0);
+        break;
+    }
+    case X_GAPS: {      // white gaussian with a few runs of exact zeros after a non-zero lead-in (a stream that pauses and resumes)
+        for (auto& v : p.x) v = white(rx);
+        const int runs = rx.range(1, 3);
+        for (int q = 0; q < runs && H > 2; ++q) {
+            const int len = rx.range(1, std::max(1, std::min(H / 3, 2 * p.n)));
+            const int at = rx.range(1, std::max(1, H - len));
+            for (int i = at; i < std::min(H, at + len); ++i) p.x[size_t(i)] = cd(0, 0);
+        }
+        break;
+    }
     default: for (auto& v : p.x) v = white(rx);
     }
     for (auto& v : p.x) v *= amp;
@@ -881,11 +897,12 @@ Json gen_case(Kind kind, int alg, int cx, int n, const Ctx& ctx) {
     }
     int xcls = 0;
     switch (kind) {
-    case K_CONVERGE: xcls = pick(0, 2); break;
+    case K_CONVERGE: xcls = pick(0, 3) == 3 ? int(X_TERNARY) : pick(0, 2); break;
     case K_LS: xcls = pick(0, 5) <= 3 ? pick(0, 2) : pick(3, 4); break;
     case K_RECURSION: xcls = pick(0, 9) <= 6 ? pick(0, 4) : (alg == A_RLS ? pick(0, 4) : pick(5, 7)); break;
     default: xcls = pick(0, 9) <= 6 ? pick(0, 4) : pick(5, 7);
     }
+    if (kind != K_CONVERGE && pick(0, 3) == 0) xcls = flip() ? int(X_TERNARY) : int(X_GAPS);   // exact zeros inside the regressor, mid-stream
     c.set("xcls", xcls);
     c.set("amp", kind == K_CONVERGE && alg == A_RLS ? 1.0 : (pick(0, 2) == 0 ? std::pow(10.0, pickd(-1.0, 1.0)) : 1.0));
     const int dmode = kind == K_CONVERGE ? int(D_SYSTEM) : pick(0, 2);
@@ -932,7 +949,7 @@ static void stream_gen(Ctx& ctx) {
         const int hmax = alg == A_RLS ? std::max(64, std::min(1500, 400000 / (n * n))) : 1500;
         int H = pick(0, 2) == 0 ? pick(1, hmax) : pick_log(1, hmax);
         // conventional RLS with lambda < 1 on a non-persistent input lets P grow like lambda^-k: keep lambda^-H <= 1e8 (domain: finite values)
-        if (alg == A_RLS && c.geti("xcls") >= int(X_CONST) && c.getd("lam") < 1.0) H = std::min(H, std::max(1, int(std::log(1e8) / -std::log(c.getd("lam")))));
+        if (alg == A_RLS && c.geti("xcls") >= int(X_CONST) && c.geti("xcls") <= int(X_SPARSE) && c.getd("lam") < 1.0) H = std::min(H, std::max(1, int(std::log(1e8) / -std::log(c.getd("lam")))));
         c.set("H", H).set("seed", (long long)seed64());
         return c;
     });
